@@ -82,4 +82,9 @@ META = {
         "level_text": "Fault enumeration: for each generated history the storage seam records the physical writes of one operation (commit, deletion of old versions, rollback, import commit, fast-index build) and EVERY boundary between them is turned into a crash image that is reopened with the index on and off, compared with the model's before/after state on all read paths, and on which the operation is repeated. Exhaustive per history, sampled across histories (thousands of cuts per quick run).",
         "level_note": _TB + "Assumes atomic ordered batch writes (as the property states). Open finding F7: at cuts strictly inside a split SaveVersion / LoadVersionForOverwriting / DeleteVersionsTo the known symptoms are tolerated and counted, but every version the operation was not touching must still be fully readable; cuts 0 and |J|, import and index-build cuts are checked in full. F18 (multi-batch import) likewise.",
     },
+    "C17": {
+        "technique": "fault enumeration inside generated histories: every storage-call position of one generated public call is failed once; differential against the fault-free result",
+        "level_text": "Fault enumeration: for each generated history and public call, a fault-free run fixes the result and the number of storage calls; every single position is then failed (plus drawn multi-fault sets) on a fresh clone with a cold handle. The call must return an error or exactly the fault-free result, never panic or abort the process; writes must not report success after a failed storage write and must leave a loadable store.",
+        "level_note": _TB + "Exhaustive per call, sampled across histories and calls. Calls without an error result are out of scope (as the property states).",
+    },
 }
